@@ -96,6 +96,11 @@ Proof. exists 0, 3. vm_compute. repeat split; discriminate. Qed.
 Theorem bphp_domain_partial : forall m n, 1 <= m -> 1 <= n -> bphp_valid m n = true.
 Proof. intros. unfold bphp_valid. lia. Qed.
 
+Theorem bphp_spec_sat_iff_final m n : 0 <= m -> 0 <= n ->
+  ((exists a, cnf_sat a (to_cnf (bphp_spec_ir m n)) = true) <-> m <= n) /\
+  ((exists a, opb_sat a (to_opb (bphp_spec_ir m n)) = true) <-> m <= n).
+Proof. intros Hm Hn. apply final_sat; [now apply bphp_spec_ok|now apply bphp_spec_sat_iff]. Qed.
+
 (* ---------------- rphp ---------------- *)
 Theorem rphp_T1_final a m r n : 0 <= m -> 0 <= r -> 0 <= n ->
   (cnf_sat a (to_cnf (rphp_ir m r n)) = true <->
